@@ -88,8 +88,10 @@ def run (c : Json) : E Json := do
   for op in ← arr c "ops" do
     let k ← str op "op"
     if k == "find" then
-      let (rawPath, _) := splitTarget (bytesOf (← str op "target"))
-      match pathUnescape rawPath with
+      let (received, _) := splitTarget (bytesOf (← str op "target"))
+      -- the request context spells the received path with the octets a path may not contain percent-encoded
+      let rawPath := receivedPath received
+      match (pathUnescape received).bind fun _ => pathUnescape rawPath with
       | none => out := out ++ [Json.mkObj [("badrequest", Json.bool true)]]
       | some path =>
         let q : ReqView := { method := ← str op "method", scheme := strD op "scheme" "http", host := bytesOf (← str op "host"), rawPath, path }
